@@ -47,6 +47,8 @@ def build(desc):
     """desc = (cls, streamer descs, extra) -> accelerator instance.  Everything JSON-able for replay."""
     Alu, Gemmx, Hwpe, Xdma, Gemmini, S, E = _imports()
     cls, sdescs, extra = desc
+    if cls == "phs":
+        return build_phs(extra)
     if cls == "hwpe":
         return Hwpe()
     if cls == "gemmini":
@@ -62,6 +64,61 @@ def build(desc):
     if cls == "xdma":
         return Xdma(S.StreamerConfiguration(streamers, S.StreamerSystemType.DmaExt))
     raise ValueError(cls)
+
+
+_phs_keep = []
+
+
+def build_phs(extra):
+    """extra = (kernel module texts in merge order, template map texts, template bounds): the PE is produced by the REAL encoder
+    and the REAL merge (snaxc.phs.encode / combine), the accelerator by the real SNAXPHSAccelerator."""
+    from xdsl.parser import Parser
+    from xdsl.pattern_rewriter import PatternRewriter
+
+    from snaxc.accelerators.snax_phs import SNAXPHSAccelerator
+    from snaxc.phs.combine import append_to_abstract_graph
+    from snaxc.phs.encode import convert_generic_body_to_phs
+    from snaxc.phs.template_spec import TemplateSpec
+    from vf.ctx import make_ctx, parse
+
+    texts, maps, bounds = extra
+    c = make_ctx()
+    pe = None
+    for t in texts:
+        m = parse(c, t)
+        g = [op for op in m.walk() if op.name == "linalg.generic"][0]
+        k = convert_generic_body_to_phs(g, "phsacc", PatternRewriter(g))
+        _phs_keep.append(m)
+        if pe is None:
+            pe = k
+        else:
+            append_to_abstract_graph(k, pe)
+    del _phs_keep[:-32]
+    amaps = [Parser(c, f"affine_map<{mp}>").parse_attribute().data for mp in maps]
+    spec = TemplateSpec(tuple(amaps[:-1]), (amaps[-1],), tuple(bounds))
+    return SNAXPHSAccelerator(pe, spec)
+
+
+def gen_phs_desc(rng: random.Random):
+    from vf.gen import phs_gen as G
+
+    while True:
+        h = G.gen_history(rng)
+        if h["klass"] == "uniform":
+            break
+    ks = h["kernels"]
+    n_in = ks[0]["n_in"]
+    rank = rng.choice([1, 1, 2])
+    dims = ", ".join(f"d{i}" for i in range(rank))
+
+    def amap():
+        if rank == 1:
+            return f"({dims}) -> (d0)"
+        return f"({dims}) -> ({rng.choice(['d0, d1', 'd1, d0', 'd0', 'd1'])})"
+
+    maps = [amap() for _ in range(n_in + 1)]
+    bounds = [rng.choice([1, 2, 4, 8]) for _ in range(rank)]
+    return ("phs", None, (tuple(G.render_kernel(k) for k in ks), tuple(maps), tuple(bounds)))
 
 
 def gen_desc(rng: random.Random, classes=("hwpe", "alu", "gemmx", "xdma"), p_default=0.3):
